@@ -16,6 +16,9 @@ import (
 
 const poisonByte = 0xA5
 
+// quarantineCap bounds the number of freed blocks withheld from the allocator in quarantine mode.
+const quarantineCap = 20000
+
 type violation struct {
 	Kind   string `json:"kind"`   // root-cause class, see the list in checks/c11.py
 	Detail string `json:"detail"` // first occurrence
@@ -47,6 +50,9 @@ type checkpoint struct {
 	LiveBytes int    `json:"live_bytes"`
 	HeapPtr   uint32 `json:"heap_ptr"`
 	Serial    int    `json:"serial"`
+	// blocks allocated after the previous checkpoint and up to this one that are still allocated at exit
+	LeakAtExit int      `json:"leak_at_exit"`
+	LeakSample []string `json:"leak_sample,omitempty"`
 }
 
 type blk struct {
@@ -139,7 +145,7 @@ func (t *tracker) Write(p []byte) (int, error) {
 		line := b[t.lineStart : t.lineStart+i]
 		t.lineStart += i + 1
 		if bytes.HasPrefix(line, []byte("CP ")) {
-			t.cps = append(t.cps, checkpoint{string(line), len(t.live), t.liveBytes, t.heapPtr, t.serial})
+			t.cps = append(t.cps, checkpoint{Label: string(line), Live: len(t.live), LiveBytes: t.liveBytes, HeapPtr: t.heapPtr, Serial: t.serial})
 			t.pendingQuarCheck = true
 		}
 	}
@@ -215,9 +221,16 @@ func (t *tracker) onFree(ctx context.Context, m api.Module, ptr, heapPtr uint32)
 	t.freed[ptr] = b.size
 	if t.mode == "quarantine" {
 		t.quar = append(t.quar, span{ptr, b.size})
+		if len(t.quar) > quarantineCap {
+			// the quarantine is bounded: the oldest block goes back to the allocator, after a last check
+			old := t.quar[0]
+			t.quar = t.quar[1:]
+			t.checkSpan(ctx, m, old)
+			return old.addr
+		}
 		return 0
 	}
-	return 1
+	return ptr
 }
 
 // onAlloc: $runtime.Block.HeapAlloc has returned block b.  Oracle (c): the header is {1, count, release, size}
@@ -311,19 +324,23 @@ func (t *tracker) checkQuarantine(ctx context.Context, m api.Module) {
 		return
 	}
 	for _, q := range t.quar {
-		buf, ok := m.Memory().Read(ctx, q.addr, q.size)
-		if !ok {
-			continue
-		}
-		for i, c := range buf {
-			if c != poisonByte {
-				t.bad("store-after-free", fmt.Sprintf("freed block %d (size %d): byte %d changed to 0x%02x after the free", q.addr, q.size, i, c))
-				// re-poison so that one stray store is reported once
-				for j := range buf {
-					buf[j] = poisonByte
-				}
-				break
+		t.checkSpan(ctx, m, q)
+	}
+}
+
+func (t *tracker) checkSpan(ctx context.Context, m api.Module, q span) {
+	buf, ok := m.Memory().Read(ctx, q.addr, q.size)
+	if !ok {
+		return
+	}
+	for i, c := range buf {
+		if c != poisonByte {
+			t.bad("store-after-free", fmt.Sprintf("freed block %d (size %d): byte %d changed to 0x%02x after the free", q.addr, q.size, i, c))
+			// re-poison so that one stray store is reported once
+			for j := range buf {
+				buf[j] = poisonByte
 			}
+			break
 		}
 	}
 }
@@ -357,6 +374,16 @@ func (t *tracker) finish() {
 	t.st.LiveBytes = t.liveBytes
 	t.st.HeapPtrEnd = t.heapPtr
 	t.event("end", fmt.Sprintf("%d 0", nb))
+	// attribute every block that is still allocated to the checkpoint interval in which it was allocated
+	for a, b := range t.live {
+		k := sort.Search(len(t.cps), func(i int) bool { return t.cps[i].Serial >= b.serial })
+		if k < len(t.cps) {
+			t.cps[k].LeakAtExit++
+			if len(t.cps[k].LeakSample) < 3 {
+				t.cps[k].LeakSample = append(t.cps[k].LeakSample, fmt.Sprintf("addr=%d size=%d serial=%d", a, b.size, b.serial))
+			}
+		}
+	}
 	if t.ops != nil {
 		t.ops.Flush()
 		t.ans.Flush()
